@@ -90,6 +90,7 @@ def rand_net4(rng, plen=None):
 
 def prefix_lists(rng, quick):
     fixed = [
+        None, None, None, None, None, None,  # the default list is what most users run with: weight it
         None, [], ["0.0.0.0/0"], ["128.0.0.0/1"], ["10.0.0.0/8"], ["1.2.3.4/31"], ["1.2.3.4/32"],
         ["10.0.0.0/8", "10.1.0.0/16", "10.1.2.0/24"],
         ["10.0.0.0/8", "11.0.0.0/8", "10.128.0.0/9"],
